@@ -291,6 +291,22 @@ pub fn run(args: &[String]) {
         let o = if o == "ok" && !clean { "FAIL C04: syntax diagnostics on a program of the reference grammar".to_string() } else { o };
         writeln!(w, "tree\t{}\t{}\t{}", enc_text(&text), r, o).unwrap();
     }
+    // (f) string literals with escape sequences, valid and invalid, ASCII and not (validation spans, C12)
+    for _ in 0..arg_u64(args, "--escapes", 0) {
+        let pieces = ["\\", "\\", "x", "u{", "}", "0", "7", "f", "Z", "é", "€", "😀", "q", "n", "t", "'", " ", "\\\\", "1F600", "D800", "110000", "_"];
+        let n = 1 + rng.below(6);
+        let mut body = String::new();
+        for _ in 0..n {
+            body.push_str(pieces[rng.below(pieces.len() as u64) as usize]);
+        }
+        let text = match rng.below(4) {
+            0 => format!("x = \"{body}\";"),
+            1 => format!("include \"{body}\";"),
+            2 => format!("é = \"{body}\" ;"),
+            _ => format!("f(\"{body}\", 1);"),
+        };
+        emit(&mut w, &text);
+    }
     // (d) fragment soups as in the lex family
     for _ in 0..arg_u64(args, "--random", 0) {
         let frags: &[&str] = &["x", " ", "\n", "1", "1.", ".5", "e", "ns", "im", "(", ")", "[", "]", "{", "}", ";", ",", "=", "+", "-", "*", "/", "<", ">", "!", "&", "|", "^", "%", "~", ":", "@", "$1", "\"01\"", "'ab'", "int", "float", "qubit", "gate", "def", "if", "else", "for", "in", "while", "return", "measure", "reset", "let", "const", "delay", "box", "array", "complex", "bit", "ctrl", "inv", "pow", "negctrl", "gphase", "switch", "case", "default", "include", "extern", "input", "output", "barrier", "break", "end", "creg", "qreg", "OPENQASM 3;", "pragma x\n", "// c\n", "/* c */", "->", "é", "😀", "#"];
